@@ -7,15 +7,24 @@
    acts segment-wise (C16_replace_segmentwise); text outside blocks, letter counter.
    FULL as well: the whole pipeline on a template with several blocks of several kinds (C16_engine_is_ref,
    C16_engine_is_ref_table): all 15 expander stages in source order, then user tags / FOR / write.
-   STILL PARTIAL: the nested per-state / per-event / per-transition blocks with their alternative text are not part of the
-   template syntax of Spec/RefExpand16.v (modelled in Model/EngineSM.v, tied by differential execution, observed against the
-   Python reference only); signature / member / documentation / attribute tags are not modelled.  block_wf keeps three
+   FULL as well: the nested per-state / per-event / per-transition blocks with their alternative text are part of the template
+   syntax of Spec/RefExpand16.v (TransBlock / titem / eitem; reference ref_trans): innerexpand_transitionsperstate on the
+   rendered block is the reference for every transition structure (C16_nested_block_is_ref), the block is an item of the
+   whole-template theorem, and the dictionary of dictionaries the table model builds is the declarative structure of the
+   table (C16_model_transitions).  Restrictions of the nested grammar (computed by in_grammar16): no state tag inside a
+   per-event block, at most one conditional (action / guard / next-state) tag on a line and no state / event tag on such a
+   line, the alternative text closed.
+   STILL PARTIAL: signature / member / documentation / attribute tags are not modelled; the shipped TEMPLATEStateMachine.py /
+   TEMPLATEInternals.cs are outside the grammar, as whole files for that reason and their transition blocks alone because of
+   text with a literal '<' or '>' ("-> None:", "<class '", "/// <summary>", "Exit<<<<STATENAMEIFNEXTSTATE>>>>") -- every other
+   line of the two shipped transition blocks is inside; for these files the engine is tied to the generators' models by
+   execution (C08 / C10).  block_wf keeps three
    conditions that are evaluated per (template, table): substituted names carry no '<' '>', no expanded copy is whitespace
    only, none contains the name of an unmodelled tag. *)
 From Coq Require Import String List Bool Arith.
 From KV Require Import Lib.Str Lib.StrOps Lib.ODict Gen.Tags Gen.Pipeline Model.Engine Model.EngineSM Model.EngineDomain Spec.RefExpand
                        Model.EngineDomain16 Spec.RefExpand16 Lib.TableDef Model.TTable
-                       Proofs.EnginePipe Proofs.EngineC16 Proofs.EngineRepl Proofs.EngineBlock Proofs.EngineTT Proofs.EngineTrans Proofs.EngineWhole16.
+                       Proofs.EnginePipe Proofs.EngineC16 Proofs.EngineRepl Proofs.EngineBlock Proofs.EngineTT Proofs.EngineTps Proofs.EngineTrans Proofs.EngineWhole16.
 Import ListNotations.
 Open Scope string_scope.
 Open Scope list_scope.
@@ -110,10 +119,19 @@ Print Assumptions C16_stage_in_source.
    of each row; events, actions, guards; signatures keyed by the (action, event) pair; the generator's events = table events
    followed by the interface's structs not among them) are the first-appearance lists of the table, for every table. *)
 Theorem C16_model_first_appearance : forall tt structs protos msgs m,
-  tt_model tt structs protos msgs = Some m -> sm_tps m = tps_of (table_of tt) ->
+  tt_model tt structs protos msgs = Some m ->
   elements_of_model m = elements_of (table_of tt) structs protos msgs.
-Proof. exact model_elements. Qed.
+Proof. exact model_elements_full. Qed.
 Print Assumptions C16_model_first_appearance.
+
+(* ... in particular transitionsperstate, the dictionary of dictionaries set_transitions_per_state fills row by row and then
+   closes with the target-only states: it is the declarative structure of the table (source states in first-appearance order,
+   then the states that are only targets; per state its events in first-appearance order; per (state, event) the rows in
+   table order, each as the table of the name tags it defines). *)
+Theorem C16_model_transitions : forall tt structs protos msgs m,
+  tt_model tt structs protos msgs = Some m -> sm_tps m = tps_of (table_of tt).
+Proof. exact model_tps. Qed.
+Print Assumptions C16_model_transitions.
 
 (* The nested blocks: per state > per event > per transition.  For EVERY transition structure (states with their events with
    their transitions, each transition the table of the name tags it defines) and every body of the grammar,
@@ -139,7 +157,7 @@ Print Assumptions C16_engine_is_ref.
 
 (* ... and with the element lists read off the transition table in first-appearance order *)
 Theorem C16_engine_is_ref_table : forall tt structs protos msgs m dict t,
-  tt_model tt structs protos msgs = Some m -> sm_tps m = tps_of (table_of tt) -> dict_ok dict = true -> in_grammar16 t = true ->
+  tt_model tt structs protos msgs = Some m -> dict_ok dict = true -> in_grammar16 t = true ->
   wf16_rows tt structs protos msgs t = true ->
   engine16 m dict t = Some (ref16_rows tt structs protos msgs t).
 Proof. exact engine16_is_ref_table. Qed.
